@@ -31,7 +31,7 @@ structure InstrView where
   flag     : Bool            -- UnOp/TypeAssert CommaOk · Call IsInvoke · Alloc Heap · Select Blocking
   name     : String          -- invoked method name
   num      : Int             -- Field / FieldAddr field · Extract index
-  auxKey   : String          -- TypeAssert asserted type
+  auxKey   : String          -- TypeAssert asserted type · MakeInterface: key of the boxed value's type
   binBasic   : Bool          -- BinOp: result type is basic
   binString  : Bool          --        … with IsString
   binNumeric : Bool          --        … with IsInteger|IsFloat|IsComplex
@@ -47,7 +47,8 @@ def compareOps (a b : InstrView) : Bool :=
   else if a.kind == "*ssa.Field" || a.kind == "*ssa.FieldAddr" || a.kind == "*ssa.Extract" then a.num == b.num
   else if a.kind == "*ssa.Alloc" || a.kind == "*ssa.Select" then a.flag == b.flag
   else if a.kind == "*ssa.TypeAssert" then a.auxKey == b.auxKey && a.flag == b.flag
-  else if a.kind == "*ssa.ChangeType" || a.kind == "*ssa.Convert" || a.kind == "*ssa.MakeInterface"
+  else if a.kind == "*ssa.MakeInterface" then a.typeKey == b.typeKey && a.auxKey == b.auxKey
+  else if a.kind == "*ssa.ChangeType" || a.kind == "*ssa.Convert"
       || a.kind == "*ssa.MakeSlice" || a.kind == "*ssa.MakeMap" || a.kind == "*ssa.MakeChan"
       || a.kind == "*ssa.Slice" || a.kind == "*ssa.ChangeInterface" || a.kind == "*ssa.SliceToArrayPointer" then
     a.typeKey == b.typeKey
